@@ -19,6 +19,7 @@ type SeqCase struct {
 	Requests               []SeqReq
 	FaultAt                int // index into Requests of the request that meets the fault
 	Fault                  Fault
+	Repeat                 int // the faulted request is sent that many more times, meeting the same fault each time
 }
 
 type SeqReq struct {
@@ -37,6 +38,9 @@ func genSeq(t *rapid.T) SeqCase {
 	c.FaultAt = rapid.IntRange(0, n-1).Draw(t, "at")
 	fs := allFaults(c.Requests[c.FaultAt].Endpoint)
 	c.Fault = fs[rapid.IntRange(0, len(fs)-1).Draw(t, "fault")]
+	if rapid.IntRange(0, 2).Draw(t, "repeated") == 0 {
+		c.Repeat = rapid.IntRange(1, 3).Draw(t, "repeat")
+	}
 	return c
 }
 
@@ -65,6 +69,14 @@ func checkSeq(t *testing.T, c SeqCase) (v harness.Verdict) {
 				continue // an empty audit path is correct for a tree of one leaf
 			}
 			judgeFault(&v, r, rq.Endpoint, c.Fault, c.Mask, c.Mapper, o, fmt.Sprintf("request %d of %d", i+1, len(c.Requests)))
+			// a backend that keeps misbehaving in the same way must keep being refused: the same request again
+			for k := 1; k <= c.Repeat; k++ {
+				r.arm(rq.Endpoint, c.Fault, 0)
+				o := r.do(q)
+				r.be.Intercept, r.be.Mutate = nil, nil
+				judgeFault(&v, r, rq.Endpoint, c.Fault, c.Mask, c.Mapper, o, fmt.Sprintf("request %d of %d, repetition %d of the same fault", i+1, len(c.Requests), k))
+				v.Class("fault-repeated")
+			}
 			continue
 		}
 		// every un-faulted valid request must succeed: the oracle is not vacuous and a fault does not poison later requests
@@ -120,7 +132,8 @@ func genBad(t *rapid.T) BadCase {
 	}
 	small := func(label string, lo, hi int) int { return rapid.IntRange(lo, hi).Draw(t, label) }
 	if rapid.IntRange(0, 4).Draw(t, "wrongmethod") == 0 {
-		c.Method = rapid.SampledFrom([]string{"GET", "POST", "PUT", "DELETE", "HEAD", "PATCH"}).Draw(t, "method")
+		// method tokens are case-sensitive (RFC 9110 s9.1): "get" and "Post" are not the methods the endpoints take
+		c.Method = rapid.SampledFrom([]string{"GET", "POST", "PUT", "DELETE", "HEAD", "PATCH", "OPTIONS", "get", "Get", "post", "Post", "pOST", "gET", "GETS", "POSTS"}).Draw(t, "method")
 		if (post && c.Method == "POST") || (!post && c.Method == "GET") {
 			c.Method = "PUT"
 		}
@@ -166,7 +179,9 @@ func genBad(t *rapid.T) BadCase {
 		good := base64.StdEncoding.EncodeToString(f.hashes[2])
 		switch small("mode", 0, 2) {
 		case 0:
-			bad := rapid.SampledFrom([]string{"", "!!!!", "AAA", "====", good[:len(good)-1], "a b", strings.ReplaceAll(good, "=", "")}).Draw(t, "badhash")
+			k := rapid.IntRange(0, len(good)-2).Draw(t, "blankat")
+			bad := rapid.SampledFrom([]string{"", "!!!!", "AAA", "====", good[:len(good)-1], "a b", strings.ReplaceAll(good, "=", ""),
+				good[:k] + " " + good[k+1:], strings.Repeat(" ", 44), "    ", good[:k] + "\t" + good[k+1:], " " + good, good + " ", good[:k] + "-" + good[k+1:], good[:k] + "_" + good[k+1:]}).Draw(t, "badhash")
 			if rapid.Bool().Draw(t, "hashabsent") {
 				c.Params["tree_size"], c.Why = sp("5"), "hash absent"
 			} else {
